@@ -8,6 +8,9 @@ class Program:
             d = json.load(f)
         self.module = d['module']
         self.types = d['types']
+        for ts, td in list(self.types.items()):
+            if td.get('k') == 'alias' and td.get('under') == ts:
+                self.types[ts] = {'k': 'iface', 'methods': []}
         self.funcs = {n: Func(self, n, fd) for n, fd in d['funcs'].items()}
         self.named = d['named']
         self.globals = d['globals']
